@@ -113,18 +113,25 @@ def observe(w, rounds=3):
     return obs
 
 
-def run_case(sess, prog, target='r', k=None, mode=None, items=0, wait_timeout=6, target_none=False, extra_kwargs=None):
+def run_case(sess, prog, target='r', k=None, mode=None, items=0, wait_timeout=6, target_none=False, extra_kwargs=None, stateful=False):
     """returns dict(trace, dead, obs (list), results (persistent stream), term_ret, notes)"""
     import importlib
     mod, clsname, kind, persistent = KINDS[prog]
     cls = getattr(importlib.import_module(mod), clsname)
+    if stateful:
+        clsname = 'S' + clsname
+        cls = getattr(TG, clsname)
     sess.n += 1
     log = os.path.join(sess.dir, f'log{sess.n}')
     sync = os.path.join(sess.dir, f'sync{sess.n}')
     tfn = None if target_none else (TG.t_item if persistent else TARGETS[target])
     if persistent and target != 'r':
         tfn = {'u': _item_raise, 'b': _item_base}[target]
+    if stateful:
+        tfn = {'r': TG.t_sret, 'u': TG.t_sraise, 'b': TG.t_sbase}[target]
     kw = dict(extra_kwargs or {})
+    if stateful:
+        kw['init_state'] = 10
     res = {'notes': []}
     tracer = None
     reached = threading.Event()
@@ -177,6 +184,7 @@ def run_case(sess, prog, target='r', k=None, mode=None, items=0, wait_timeout=6,
                     break
                 time.sleep(0.002)
             if hit:
+                res['alive_state'] = repr(w.user_state)      # the child is held at the landing point: still alive
                 st, r = watchdog(lambda: w.terminate(3), 20)
                 res['term_ret'] = r if st == 'ok' else (st if st == 'hang' else f'exc:{type(r).__name__}:{r}')
             else:
@@ -192,7 +200,7 @@ def run_case(sess, prog, target='r', k=None, mode=None, items=0, wait_timeout=6,
         if persistent:
             st, r = watchdog(lambda: list(w.results_iter()), 10)
             res['results'] = r if st == 'ok' else st
-        res['user_state'] = repr(getattr(w, '_user_state', None))
+        res['user_state'] = repr(w.user_state)
     finally:
         try:
             if w.is_alive():
@@ -234,12 +242,12 @@ def _read_trace(kind, tracer, log):
     return out
 
 
-def model_line(prog, target, items, k, mode, persistent, target_none=False):
+def model_line(prog, target, items, k, mode, persistent, target_none=False, assigns=False):
     inputs = ('i' * items + 'r') if persistent else '-'
     a = {'raise': 'w', 'terminate': 'c', 'kill': 'k', None: 'w'}[mode]
     if mode == 'terminate' and KINDS[prog][2] == 'thread':
         a = 'w'        # ThreadWorker.terminate raises directly in the target thread: no control thread involved
-    return f'run {prog} {target} {int(target_none)} {inputs} {"-" if k is None else k} {a}'
+    return f'run {prog} {target} {int(target_none)} {inputs} {"-" if k is None else k} {a}' + (' assign' if assigns else '')
 
 
 def parse_model(line):
@@ -248,6 +256,34 @@ def parse_model(line):
         k, _, v = part.partition('=')
         d[k] = v
     he, _, er = d.get('obs', '/').partition('/')
-    return {'out': d.get('out'), 'has_error': {'True': True, 'False': False, 'None': None}.get(he), 'error': er,
+    return {'out': d.get('out'), 'ustate': d.get('ustate'), 'has_error': {'True': True, 'False': False, 'None': None}.get(he), 'error': er,
             'trace': [int(x) for x in d.get('trace', '').split(',') if x],
             'results': [x for x in d.get('results', '').split(',') if x]}
+
+
+class gated_recv:
+    """context manager: the parent-side frontend thread's recv_msg for messages whose comment starts with
+    `prefix` blocks until .gate is set (models a slow network between two messages)"""
+
+    def __init__(self, prefix):
+        import threading
+        self.prefix = prefix
+        self.gate = threading.Event()
+
+    def __enter__(self):
+        import pyworkers.remote as R
+        import pyworkers.persistent_remote as PR
+        self.R, self.PR, self.orig, self.orig_pr = R, PR, R.recv_msg, PR.recv_msg
+
+        def gated(sock, *a, comment=None, **k):
+            if comment and comment.startswith(self.prefix):
+                self.gate.wait(15)
+            return self.orig(sock, *a, comment=comment, **k)
+        R.recv_msg = gated
+        PR.recv_msg = gated
+        return self
+
+    def __exit__(self, *exc):
+        self.gate.set()
+        self.R.recv_msg = self.orig
+        self.PR.recv_msg = self.orig_pr
